@@ -47,10 +47,12 @@ CHECKS = {
             "(adjacent entry of the merged table, offsets on both sides); all events validated by ZoneTrace.tla",
             "installed zoneinfo = meaning of 'the zone file'; nothing judged before the first listed transition; quick tier samples a third "
             "of the zones (all extreme ones) and caps instants per zone", "5 C12"),
-    "C14": ("model_checking", "TLA+ Leaps (table laws) and Bisect (refinement, Progress, pinned loop refuted) model-checked; Bisect cases replayed on leaps_before_*; TAI/GPS/%rS/rs events validated by LeapsTrace",
+    "C14": ("model_checking", "TLA+ Leaps (table laws), Bisect (refinement, Progress, pinned loop refuted) and LeapCompile (the ltrcc passes emit the columns the list demands) model-checked; Bisect cases replayed on leaps_before_*; TLC-emitted lists compiled by the real ltrcc and the linked arrays validated by LeapCompileTrace; TAI/GPS/%rS/rs events validated by LeapsTrace",
             "Leaps.tla over the frozen table and Bisect.tla are model-checked; every Bisect state is replayed on the four leaps_before "
             "functions; TAI/GPS offsets at every entry +-2 s, yearly to 4094, at the 2^31/2^32 boundaries and seeded, real-second differences "
-            "of ordered pairs in both orders and real-second additions across every inserted second are validated by LeapsTrace.tla",
+            "of ordered pairs in both orders (operands in ymd, ymcw and epoch notation) and real-second additions across every inserted second "
+            "are validated by LeapsTrace.tla; the leap-list compiler: LeapCompile.tla model-checked for all lists of <= 4|5 lines, 400|5.4k "
+            "emitted lists compiled by the tree's ltrcc, the shipped list and the linked arrays validated word by word by LeapCompileTrace.tla",
             "LeapTab.tla is a frozen copy of lib/leap-seconds.list; differences only for |d| < 2^31 s (beyond: known finding); operands equal to 23:59:60 not used", "5 C14"),
     "C11": ("model_checking", "TLA+ Clock (carry mechanism refines floor-division AddS; slot overflow refuted as control) model-checked; dt_dtadd/dt_dtdiff/%s/@N/24:00:00 replayed against chain arithmetic; tool events validated by ClockTrace",
             "Clock.tla is model-checked exhaustively with the day scaled to 6 s (every carry / negative remainder combination, |k| <= 10 days); "
